@@ -224,6 +224,19 @@ func c18r3(p *Prog, r *Reporter) {
 							}
 						}
 					}
+					// append(make([]ecs.ID, 0, n), m.id0, m.id1, …): the same list built by appending to an empty slice
+					if id, ok := x.Fun.(*ast.Ident); ok && id.Name == "append" && len(x.Args) >= 2 {
+						if mk, ok := x.Args[0].(*ast.CallExpr); ok {
+							if mid, ok := mk.Fun.(*ast.Ident); ok && mid.Name == "make" && len(mk.Args) >= 2 && strings.HasSuffix(p.src(mk.Args[0]), "[]ecs.ID") && p.src(mk.Args[1]) == "0" {
+								for i, el := range x.Args[1:] {
+									if se, k := idSel(el); se != nil {
+										handled[se] = true
+										r.Check(k == i, owner, fmt.Sprintf("ids[%d] = id%d", i, k), p.Pos(el.Pos()), "the id list is in field order")
+									}
+								}
+							}
+						}
+					}
 					// newFilter(typeOf[A](), typeOf[B]())
 					if id, ok := x.Fun.(*ast.Ident); ok && id.Name == "newFilter" {
 						for i, a := range x.Args {
